@@ -348,6 +348,7 @@ def main(run: core.Run) -> None:
     # (the documented rejections of the per/total/currency group are refusals too)
     from . import c09
     items += [dict(c, level='basic') for c in docexp.corpus(docs.L_EDIT, 2, depth=1, variants=(('lf', False),))]
+    items += [dict(c, level='basic', claims=False) for c in docexp.class_cases(1)]
     forms = c09.cost_forms()
     items += [{'text': c09.cost_doc(f), 'mode': True, 'level': 'basic', 'claims': False} for f in (forms if tier != 'quick' else forms[::3])]
     run.run_cases(run_case, items, 'refusals from parsed states', chunk=1)
